@@ -111,11 +111,25 @@ fn main() {
     let mut ctx = Ctx::new(args.clone());
     let ns = args.list("n", &[0, 1, 2, 3, 4]);
     let elem = args.get("elem").unwrap_or("tok").to_string();
-    let r = std::panic::catch_unwind(std::panic::AssertUnwindSafe(|| run(&args, &mut ctx, &ns, &elem)));
-    if r.is_err() {
-        let p = tok::take_last_panic();
-        eprintln!("HARNESS-ERROR: uncaught panic {:?} during case {}: {}", p, ctx.case_idx, ctx.cur_case);
-        std::process::exit(3);
+    // A panic that escapes a case comes either from the crate under test (called by the harness'
+    // own observation / state-building code, where no panic is ever documented) or from the
+    // harness tripping over inconsistent answers of the crate. Record it, skip that case, go on.
+    let mut restarts = 0;
+    loop {
+        let r = std::panic::catch_unwind(std::panic::AssertUnwindSafe(|| run(&args, &mut ctx, &ns, &elem)));
+        if r.is_ok() {
+            break;
+        }
+        ctx.record_escaped_panic();
+        restarts += 1;
+        if restarts > 200 || !ctx.can_skip {
+            ctx.notes.push("gave up restarting after an escaped panic".to_string());
+            ctx.count("harness_gave_up", 1);
+            break;
+        }
+        ctx.skip_upto = ctx.case_idx;
+        ctx.case_idx = 0;
+        ctx.enum_idx = 0;
     }
     ctx.emit(&args.workload, "");
 }
